@@ -15,6 +15,8 @@ EVENT_CLAUSES = {
     'result-differs': ('Query',),
 }
 
+ECHO_SOURCES = ('global-generator-differs',)
+
 
 def relevant(clause, shape):
     if shape.startswith(('GlobalSeed', 'GlobalDraw', 'SetSeed', 'Dataset')):
